@@ -424,6 +424,19 @@ pub trait Scheme: 'static + Sized {
     fn comm_with_shifted_of(_c: &Comm<Self>, _o: &Comm<Self>) -> Option<Comm<Self>> {
         None
     }
+    /// C05 replica I for schemes whose batch proof has no per-point-label structure of its own
+    /// (raw KZG10: the grouping of its proofs is an artefact of the harness adapter): the AND of the
+    /// individual checks over the flattened statement and proof lists. None = use the generic replica.
+    #[cfg(feature = "full")]
+    fn flat_individual_and(
+        _vk: &Vk<Self>,
+        _comms: &[ark_poly_commit::LabeledCommitment<Comm<Self>>],
+        _qs: &ark_poly_commit::QuerySet<Self::Pt>,
+        _evals: &ark_poly_commit::Evaluations<Self::Pt, Self::F>,
+        _proof: &BatchProof<Self>,
+    ) -> Option<(bool, String)> {
+        None
+    }
     /// the commitment `c` with the group identity as its degree-bound part
     fn comm_with_identity_shift(_c: &Comm<Self>) -> Option<Comm<Self>> {
         None
@@ -1053,6 +1066,43 @@ where
     const FAMILY: Family = Family::Kzg10;
     fn name() -> String {
         format!("kzg10-{}", E::CURVE)
+    }
+    #[cfg(feature = "full")]
+    fn flat_individual_and(
+        vk: &Vk<Self>,
+        comms: &[ark_poly_commit::LabeledCommitment<Comm<Self>>],
+        qs: &ark_poly_commit::QuerySet<Self::Pt>,
+        evals: &ark_poly_commit::Evaluations<Self::Pt, Self::F>,
+        proof: &BatchProof<Self>,
+    ) -> Option<(bool, String)> {
+        use ark_poly_commit::kzg10::KZG10;
+        // statements in the order the adapter hands them to KZG10::batch_check: by point label, then by label
+        let mut groups: std::collections::BTreeMap<&String, (&Self::Pt, std::collections::BTreeSet<&String>)> = Default::default();
+        for (label, (point_label, point)) in qs.iter() {
+            groups.entry(point_label).or_insert((point, Default::default())).1.insert(label);
+        }
+        let mut stmts = vec![];
+        for (_, (point, labels)) in groups {
+            for l in labels {
+                let Some(c) = comms.iter().find(|c| c.label() == l) else { return Some((false, format!("no commitment {l}"))) };
+                let Some(v) = evals.get(&(l.clone(), *point)) else { return Some((false, format!("no evaluation {l}"))) };
+                stmts.push((c.commitment().clone(), *point, *v));
+            }
+        }
+        let ps: Vec<_> = proof.iter().flat_map(|g| g.iter().cloned()).collect();
+        if ps.len() != stmts.len() {
+            return Some((false, format!("{} proofs for {} claims", ps.len(), stmts.len())));
+        }
+        let mut all = true;
+        let mut why = String::new();
+        for ((c, z, v), p) in stmts.iter().zip(ps.iter()) {
+            match KZG10::<E, UPoly<E::ScalarField>>::check(&vk.vk, c, *z, *v, p) {
+                Ok(true) => {}
+                Ok(false) => { all = false; why = "false".into(); }
+                Err(e) => { all = false; why = format!("err {e}"); }
+            }
+        }
+        Some((all, why))
     }
     #[cfg(feature = "full")]
     fn io_extra(ctx: &mut crate::props::c12::IoCtx, sess: &crate::session::Sess<Self>) {
